@@ -240,7 +240,7 @@ class GateFamily:
     def __repr__(self) -> str:
         name_and_description = ''
         if self.name != self._default_name() or self.description != self._default_description():
-            name_and_description = f'name="{self.name}", description="{self.description}", '
+            name_and_description = f'name={self.name!r}, description={self.description!r}, '
         return (
             f'cirq.GateFamily('
             f'gate={self._gate_str(repr)}, '
